@@ -11,12 +11,11 @@ Section IdemOld.
   Variable sig_flag : N -> option N.
   Variable sighash_ecdsa : N -> option N.
   Variable inp_mall : bool -> bool.
-  Variable keep_unknown : bool.
 
-  Notation stepM := (step try_input interp_check desc_info sig_flag sighash_ecdsa inp_mall keep_unknown).
-  Notation finalize_inputM := (finalize_input try_input keep_unknown).
-  Notation specM := (finalize_input_spec try_input keep_unknown).
-  Notation loopM := (fin_old_loop try_input keep_unknown).
+  Notation stepM := (step try_input interp_check desc_info sig_flag sighash_ecdsa inp_mall).
+  Notation finalize_inputM := (finalize_input try_input).
+  Notation specM := (finalize_input_spec try_input).
+  Notation loopM := (fin_old_loop try_input).
   Notation sanityM := (sanity_check sig_flag sighash_ecdsa).
 
   Hypothesis Hne : try_nonempty try_input.
@@ -31,7 +30,7 @@ Section IdemOld.
     - destruct (sanity_input sig_flag sighash_ecdsa y); [discriminate|]. apply IH; auto.
   Qed.
 
-  Lemma sanity_cleared a s w : sanity_input sig_flag sighash_ecdsa (cleared keep_unknown a s w) = None.
+  Lemma sanity_cleared a s w : sanity_input sig_flag sighash_ecdsa (cleared a s w) = None.
   Proof. reflexivity. Qed.
 
   Lemma finalize_input_sanity st i m st' :
@@ -58,7 +57,7 @@ Section IdemOld.
     induction idxs as [|i r IH]; intros st k Hk; simpl; auto.
     destruct (finalize_inputM st i m) as [st1|e|] eqn:H; simpl; auto.
     rewrite IH by (intro; apply Hk; right; auto).
-    apply (finalize_input_other try_input keep_unknown _ _ _ _ k H). intro; subst; apply Hk; left; auto.
+    apply (finalize_input_other try_input _ _ _ _ k H). intro; subst; apply Hk; left; auto.
   Qed.
 
   Lemma loop_second m idxs : NoDup idxs -> forall st st' r,
@@ -73,7 +72,7 @@ Section IdemOld.
         { pose proof (loop_untouched m r0 st1 i Hni) as U. rewrite H in U. simpl in U. rewrite U.
           destruct S as (a & Ha & [[Hf ->]|(Hf & s & w & Ht & ->)]).
           - eauto.
-          - exists (cleared keep_unknown a s w). split. simpl. eapply nth_set_nth_eq; eauto.
+          - exists (cleared a s w). split. simpl. eapply nth_set_nth_eq; eauto.
             eapply cleared_final; eauto. }
         destruct Hi as (a1 & Ha1 & Hf1).
         unfold finalize_input. rewrite Ha1, Hf1. eapply IH; eauto.
@@ -91,7 +90,7 @@ Section IdemOld.
     - pose proof (loop_sanity m (seq 0 (length (p_inputs st))) st Hs) as Hs'. rewrite H in Hs'. simpl in Hs'.
       rewrite Hs'.
       assert (L : length (p_inputs st') = length (p_inputs st)).
-      { pose proof (fin_old_loop_sreach try_input keep_unknown m (seq 0 (length (p_inputs st))) st) as R.
+      { pose proof (fin_old_loop_sreach try_input m (seq 0 (length (p_inputs st))) st) as R.
         rewrite H in R. simpl in R. apply sreach_length; auto. }
       rewrite L. eapply loop_second; eauto. apply seq_NoDup.
   Qed.
